@@ -5,7 +5,7 @@
    of every model trace" (no spurious request during recovery, stash drained, recovery ends) is `_partial`: validated by
    the correspondence stream with the same predicate. *)
 From Coq Require Import ZArith List Bool.
-From QF Require Import Base.Bytes Session.Types Session.Model Session.Spec Session.LocalProofs Session.C01Proofs.
+From QF Require Import Base.Bytes Session.Types Session.Model Session.Spec Session.LocalProofs Session.C01Proofs Session.TraceProofs Session.RecoveryProofs.
 Import ListNotations.
 Open Scope Z_scope.
 
@@ -39,3 +39,10 @@ Proof. exact pending_recovery_undisturbed. Qed.
 Theorem c04_drain_in_order : forall lb s e, lb <= s_tgt s ->
   exists lb', c01_scan_cbs lb (rev (s_cbs (step s e))) = Some lb' /\ lb' <= s_tgt (step s e).
 Proof. exact c01_handover_at_expected. Qed.
+
+(* TRACE LEVEL.  For every configuration and every event list, clause 406 of c04_check never fails on the model's trace:
+   a timer event (heartbeat, peer, logon or logout timer) leaves the recovery state — the kept messages, the current chunk
+   end and the range end — exactly as it was, as long as the session stays logged on. *)
+Theorem c04_timers_never_disturb_recovery_on_any_trace : forall c es,
+  free_of [406] (c04_check c (combine es (map obs_of (run_trace es (init_sess c))))) = true.
+Proof. exact c04_timers_never_disturb_recovery. Qed.
